@@ -680,6 +680,286 @@ class Prop:
                     for confed in (0, CONFED_ID):
                         yield s, d, cid, confed
 
+    # ================================================================ audit classes: enumerated on every run
+    # (no randomness: every clause of the property and every branch of the anchored code has a
+    # class here, with the boundary values on both sides of each comparison; classify() tags them)
+    A_RX = [0, [10, 0, 0, 1]]                 # the receiver's address
+    A_PEER = [0, [10, 0, 0, 2]]
+    A_PEER6 = [1, [0x20, 1, 0xd, 0xb8] + [0] * 11 + [2]]
+    OWN_RID = 0x01000001
+    OWN_CID = 0x01020304
+    NO_LLGR = [255, 255, 0, 7]
+    # AS numbers whose octets look like segment headers / counts
+    HDR_ASNS = [0x02010000, 0x03FF0203, 65002, 0x01020304, 0x04000000, 0x0000FDE9]
+
+    def a_ctx(self, role, confed=0, laddr=0):
+        la = [0, [192, 0, 2, 1]] if laddr == 0 else [1, [0x20, 1, 0xd, 0xb8] + [0] * 11 + [0xfe]]
+        return [role, LOCAL_AS, la, [self.LL] if laddr == 2 else [], confed]
+
+    def a_src(self, kind, llgr=0, addr=None):
+        """kind: 'local' | 'kernel' | role number"""
+        if kind == 'local':
+            return [0]
+        if kind == 'kernel':
+            return [1]
+        rasn = LOCAL_AS if kind in (IBGP, RRC) else 65002
+        return [2, addr or self.A_PEER, rasn, LOCAL_AS, 0x0a000002, kind, llgr]
+
+    def a_path_attr(self, segs):
+        return [AS_PATH, 0x40, 1, enc_path(segs)]
+
+    def a_one(self, x, emax, cid, path, em=None, fam=IPV4, bc=1, ac=1, rep=None):
+        ch = [fam, 1, bc, ac, rep or [], [path] if isinstance(path[0], int) else path]
+        return [x, emax, self.A_RX, cid, ch, em if em is not None else ([0] if emax == 1 else [2, []]), [1, 2]]
+
+    def cid_for(self, d):
+        return [self.OWN_CID] if d in (IBGP, RRC) else []
+
+    def gen_audit(self):
+        out = []
+
+        def add(cls, case):
+            out.append((cls, case))
+        big = lambda n, k=0: [self.HDR_ASNS[(i + k) % len(self.HDR_ASNS)] for i in range(n)]
+        # ---- AS_PATH edits: head type x count byte at every boundary, AS octets that look like headers,
+        # a second segment behind so that a lost step shows
+        tail = [2, 1] + be32(LOCAL_AS)
+        for b0 in (1, 2, 3, 4):
+            for n in (0, 1, 63, 64, 127, 128, 253, 254, 255):
+                a = [AS_PATH, 0x40, 1, [b0, n] + [b for v in big(n) for b in be32(v)] + tail]
+                add('cls_path_count_boundaries', [0, 2, 65003, a])
+                add('cls_path_count_boundaries', [0, 3, 65003, a])
+                add('cls_path_count_boundaries', [1, a])
+                add('cls_path_count_boundaries', [2, [a], LOCAL_AS, 0])
+                add('cls_path_count_boundaries', [2, [a], 64999, LOCAL_AS])
+        for b0 in (0, 5, 255):
+            for n in (0, 1, 255):
+                a = [AS_PATH, 0x40, 1, [b0, n] + [b for v in big(n) for b in be32(v)]]
+                for cse in ([0, 2, 65003, a], [0, 3, 65003, a], [1, a], [2, [a], 65002, 0]):
+                    add('cls_path_bad_type_head', cse)
+        for asn in (0, 1, 255, 256, 65535, 65536, 23456, 2147483648, 4294967295, 0x02010000, 0x03ff0000):
+            for ty in (2, 3):
+                for head in ([], [(ty, [65002])], [(5 - ty, [65002])]):
+                    add('cls_prepend_asn_boundaries', [0, ty, asn, self.a_path_attr(head)])
+        # ---- every segment type at every position (1..3 segments), an empty / a full segment at each position
+        for n in (1, 2, 3):
+            for types in itertools.product((1, 2, 3, 4), repeat=n):
+                base = [(t, [64512 + k]) for k, t in enumerate(types)]
+                variants = [base]
+                for k in range(n):
+                    variants.append(base[:k] + [(types[k], [])] + base[k + 1:])
+                    if n <= 2:
+                        variants.append(base[:k] + [(types[k], big(255, k))] + base[k + 1:])
+                for v in variants:
+                    a = self.a_path_attr(v)
+                    add('cls_strip_every_type_position', [1, a])
+                    if n <= 2:
+                        add('cls_strip_every_type_position', [0, 2 + (n % 2), LOCAL_AS, a])
+        # ---- the local AS / confederation id at the first / last place of each kind of segment, of the
+        # first / last segment, behind a full segment; confederation id below, above and equal to the local AS
+        for t in (1, 2, 3, 4):
+            for where in ('first', 'last', 'last255'):
+                for which in (0, 1):
+                    for confed in (0, 65100, 65000, LOCAL_AS):
+                        for target in ('local', 'confed'):
+                            if target == 'confed' and confed in (0, LOCAL_AS):
+                                continue
+                            asn = LOCAL_AS if target == 'local' else confed
+                            if where == 'first':
+                                seg = (t, [asn, 64512, 64513])
+                            elif where == 'last':
+                                seg = (t, [64512, 64513, asn])
+                            else:
+                                seg = (t, big(254) + [asn])
+                            other = (2 if t != 2 else 1, [64600, 64601])
+                            segs = [seg, other] if which == 0 else [other, seg]
+                            attrs = [[ORIGIN, 0x40, 0, 0], self.a_path_attr(segs)]
+                            add('cls_loop_position', [2, attrs, LOCAL_AS, confed])
+                            if where != 'last255':
+                                for role in ROLES:
+                                    add('cls_loop_position_rx', [10, self.a_ctx(role, confed), self.OWN_RID, self.cid_for(role), attrs])
+        # near misses: neighbours of the local AS, the local AS split over two AS numbers' octets
+        for asn in (LOCAL_AS - 1, LOCAL_AS + 1, LOCAL_AS << 16, LOCAL_AS >> 8):
+            attrs = [[ORIGIN, 0x40, 0, 0], self.a_path_attr([(2, [asn & 0xffffffff, 64512])])]
+            add('cls_loop_near_miss', [2, attrs, LOCAL_AS, 0])
+            add('cls_loop_near_miss', [10, self.a_ctx(EBGP), self.OWN_RID, [], attrs])
+        attrs = [[ORIGIN, 0x40, 0, 0], self.a_path_attr([(2, [0x0000FDE9 >> 8, (0xE9 << 24) | 0x00FDE9])])]
+        add('cls_loop_near_miss', [2, attrs, LOCAL_AS, 0])
+        # ---- export_attrs: every receiver role x confederation configuration x path shape
+        shapes = [None, []]
+        shapes += [[(t, [64512])] for t in (1, 2, 3, 4)]
+        shapes += [[(t, big(255)), (2, [64600])] for t in (1, 2, 3, 4)]
+        shapes += [[(t, big(254)), (2, [64600])] for t in (2, 3)]
+        shapes += [[(t1, [64512, 64513]), (t2, [64600])] for t1 in (1, 2, 3, 4) for t2 in (1, 2, 3, 4)]
+        shapes += [[(3, [64512]), (4, [64513]), (2, [64600])], [(2, [64512]), (3, [64513]), (2, [64600])],
+                   [(4, [64512]), (1, [64513]), (3, [64600])], [(3, []), (2, [64600])], [(2, []), (3, [64513])]]
+        for role in ROLES:
+            for confed in (0, 65100, 65000, LOCAL_AS):
+                for sh in shapes:
+                    attrs = [[ORIGIN, 0x40, 0, 0]] + ([self.a_path_attr(sh)] if sh is not None else []) + \
+                            [[MED, 0x80, 0, 7], [LOCAL_PREF, 0x40, 0, 200]]
+                    add('cls_export_role_confed_path', [3, self.a_ctx(role, confed), attrs])
+        # ---- MED: received / locally set / policy-set, per source kind x receiver role
+        for sk in ('local', 'kernel', EBGP, IBGP, RRC, CONFED, RS):
+            for d in ROLES:
+                for med in (None, 0, 4294967295):
+                    for pol in (None, [1, 5], [0, 7], [0, -3]):
+                        attrs = [[ORIGIN, 0x40, 0, 0], self.a_path_attr([(2, [65002])])] + ([[MED, 0x80, 0, med]] if med is not None else [])
+                        p = [1, self.a_src(sk), [[0, [10, 0, 0, 9]]], attrs]
+                        c = self.a_one(self.a_ctx(d), 1, self.cid_for(d), p)
+                        if pol is None:
+                            add('cls_med_by_role_pair', [9] + c)
+                        else:
+                            add('cls_med_by_role_pair', [12] + c + [[[], [pol], 1, 2, []]])
+        # MED action clamps at the u32 ends
+        for cur in (0, 1, 4294967295):
+            for act in ([0, -1], [0, 0], [0, 1], [0, 4294967295], [0, 4294967296], [0, -4294967296],
+                        [1, -1], [1, 0], [1, 4294967295], [1, 4294967296]):
+                for d in (EBGP, IBGP):
+                    attrs = [[ORIGIN, 0x40, 0, 0], self.a_path_attr([(2, [65002])]), [MED, 0x80, 0, cur]]
+                    p = [1, self.a_src(EBGP), [[0, [10, 0, 0, 9]]], attrs]
+                    add('cls_med_clamp', [12] + self.a_one(self.a_ctx(d), 1, self.cid_for(d), p) + [[[], [act], 1, 2, []]])
+        # ---- next hop: stored kind x session address kind x origin x receiver role x family
+        nhs = [[], [[0, [10, 0, 0, 9]]], [[0, [0, 0, 0, 0]]], [[1, self.A_PEER6[1]]], [[1, [0] * 16]], [[2, self.A_PEER6[1], self.LL]],
+               [[2, [0] * 16, self.LL]]]
+        for nh in nhs:
+            for la in (0, 1, 2):
+                for il in (0, 1):
+                    for role in ROLES:
+                        for fam in (IPV4, IPV6, FLOWSPEC4, FLOWSPEC6, FLOWSPEC4_VPN, FLOWSPEC6_VPN):
+                            if fam not in (IPV4, FLOWSPEC6_VPN) and (nh or la == 1):
+                                continue
+                            add('cls_nexthop_default', [4, self.a_ctx(role, 0, la), [[ORIGIN, 0x40, 0, 0], [MED, 0x80, 0, 1]], nh, fam, il])
+        # ... and under the export policy's next-hop actions
+        for nh in ([], [[0, [10, 0, 0, 9]]], [[2, self.A_PEER6[1], self.LL]], [[0, [0, 0, 0, 0]]]):
+            for la in (0, 2):
+                for sk in ('local', EBGP):
+                    for d in ROLES:
+                        for act in ([1], [3], [0, [0, [10, 0, 0, 77]]], [0, self.A_PEER6], [2]):
+                            sk2 = RS if (d == RS and sk == EBGP) else sk
+                            p = [1, self.a_src(sk2), nh, [[ORIGIN, 0x40, 0, 0], self.a_path_attr([(2, [65002])])]]
+                            add('cls_nexthop_policy_action',
+                                [12] + self.a_one(self.a_ctx(d, 0, la), 1, self.cid_for(d), p) + [[[act], [], 1, 2, []]])
+        # ---- ORIGINATOR_ID / CLUSTER_LIST at the boundaries
+        own = be32(self.OWN_CID)
+
+        def clist(L, where):
+            ids = [0x0a0a0a00 + (k % 200) for k in range(L)]
+            b = [x for i in ids for x in be32(i)]
+            if where == 'first' and L >= 1:
+                b[0:4] = own
+            elif where == 'last' and L >= 1:
+                b[-4:] = own
+            elif where == 'middle' and L >= 3:
+                b[4 * (L // 2):4 * (L // 2) + 4] = own
+            elif where == 'misaligned' and L >= 2:
+                b[2:6] = own                      # own id across two entries: chunks(4) must not see it
+            elif where == 'ragged':
+                b = b + own[:2]
+            return b
+        cl_variants = [None]
+        for L in (0, 1, 2, 3, 63, 64, 255):
+            for where in ('absent', 'first', 'last', 'middle', 'misaligned', 'ragged'):
+                if (where in ('first', 'last') and L < 1) or (where == 'middle' and L < 3) or (where == 'misaligned' and L < 2):
+                    continue
+                if L in (63, 64, 255) and where in ('middle', 'ragged'):
+                    continue
+                cl_variants.append(clist(L, where))
+        for clv in cl_variants:
+            for orig in (None, self.OWN_RID, self.OWN_RID + 1, self.OWN_RID - 1, 0):
+                if clv is not None and len(clv) > 16 and orig not in (None, self.OWN_RID):
+                    continue
+                for role in (IBGP, RRC, EBGP):
+                    attrs = [[ORIGIN, 0x40, 0, 0], self.a_path_attr([(2, [65002])])]
+                    if orig is not None:
+                        attrs.append([ORIGINATOR_ID, 0x80, 0, orig])
+                    if clv is not None:
+                        attrs.append([CLUSTER_LIST, 0x80, 1, clv])
+                    add('cls_rr_loop_boundaries', [10, self.a_ctx(role), self.OWN_RID, self.cid_for(role), attrs])
+        for L in (None, 0, 1, 63, 64, 255):
+            for orig in (None, 0x0a000009):
+                attrs = [[ORIGIN, 0x40, 0, 0]] + ([[ORIGINATOR_ID, 0x80, 0, orig]] if orig is not None else []) + \
+                        ([[CLUSTER_LIST, 0x80, 1, clist(L, 'absent')]] if L is not None else [])
+                add('cls_reflect_list_sizes', [5, attrs, 0x0a000002, self.OWN_CID])
+                if L in (None, 1, 64, 255):
+                    p = [1, self.a_src(RRC), [[0, [10, 0, 0, 9]]], attrs + [self.a_path_attr([(2, [65002])])]]
+                    for d in (IBGP, RRC):
+                        for emax in (1, 2):
+                            add('cls_reflect_list_sizes', [9] + self.a_one(self.a_ctx(d), emax, [self.OWN_CID], p))
+        # ---- unknown attributes: every combination of optional x transitive x partial x extended-length
+        for hi in range(16):
+            for low in ((0, 0xf) if hi in (0xc, 0x8) else (0,)):
+                for role in ROLES:
+                    for dl in (1, 256):
+                        attrs = [[ORIGIN, 0x40, 0, 0], self.a_path_attr([(2, [65002])]),
+                                 [99, (hi << 4) | low, 2, [(7 * k) % 256 for k in range(dl)]]]
+                        add('cls_unknown_flag_combinations', [3, self.a_ctx(role), attrs])
+        for role in ROLES:
+            attrs = [[ORIGIN, 0x40, 0, 0], [11, 0xc0, 2, []], [255, 0xe0, 2, [1]], [128, 0x80, 2, [2]], [200, 0x90, 2, [3]],
+                     self.a_path_attr([(2, [65002])])]
+            add('cls_unknown_flag_combinations', [3, self.a_ctx(role), attrs])
+        # ---- LLGR_STALE / NO_LLGR: what the COMMUNITY attribute holds when a stale route is exported
+        llgr, nol, oth = LLGR_STALE, self.NO_LLGR, [253, 233, 0, 1]
+        comm_variants = [None, [], nol, llgr, nol + llgr, llgr + nol, oth, oth * 63 + llgr, oth * 64, oth * 63 + nol,
+                         [0, 255, 255, 0, 6, 0, 0, 0], [255, 255, 0], oth + [255, 255, 0, 6][:3], [0, 6, 255, 255]]
+        for cv in comm_variants:
+            base = [[ORIGIN, 0x40, 0, 0], self.a_path_attr([(2, [65002])])] + ([[COMMUNITY, 0xC0, 1, cv]] if cv is not None else [])
+            add('cls_llgr_community_shapes', [6, base])
+            for stale in (0, 1):
+                for d in ROLES:
+                    sk = RS if d == RS else (RRC if d in (IBGP, RRC) else EBGP)
+                    p = [1, self.a_src(sk, stale), [[0, [10, 0, 0, 9]]], base]
+                    add('cls_llgr_community_shapes', [9] + self.a_one(self.a_ctx(d), 1 + stale, self.cid_for(d), p))
+        # ---- route-server boundary, with the route server's own (local / kernel) routes
+        for sk in ('local', 'kernel', EBGP, RS, IBGP, RRC, CONFED):
+            for d in ROLES:
+                for emax in (1, 2):
+                    p = [1, self.a_src(sk), [[0, [10, 0, 0, 9]]], [[ORIGIN, 0x40, 0, 0], self.a_path_attr([(2, [65002])])]]
+                    add('cls_rs_boundary' if (d == RS or sk == RS) else 'cls_role_pair', [9] + self.a_one(self.a_ctx(d), emax, self.cid_for(d), p))
+        # ---- process_nlri_change: every small state.  Three labelled paths (two that may go, one that is the
+        # receiver's own), every order of every subset, send-max 1 / 2 / 3, every recorded state of the
+        # export map, the change flags, a replaced id
+        mk = lambda pid, addr: [pid, self.a_src(EBGP, 0, addr), [[0, [10, 0, 0, 9]]], [[ORIGIN, 0x40, 0, pid % 3], self.a_path_attr([(2, [65002])])]]
+        labelled = [mk(1, self.A_PEER), mk(2, [0, [10, 0, 0, 3]]), mk(3, self.A_RX)]
+        orders = [[]]
+        for n in (1, 2, 3):
+            orders += [list(o) for o in itertools.permutations(labelled, n)]
+        x = self.a_ctx(EBGP)
+        for od in orders:
+            for bc, ac in ((1, 1), (0, 1), (1, 0)):
+                for sent in (0, 1):
+                    add('cls_process_states_best_only', [9] + self.a_one(x, 1, [], od if od else [], em=[1, [1]] if sent else [1, []], bc=bc, ac=ac) if od
+                        else [9, x, 1, self.A_RX, [], [IPV4, 1, bc, ac, [], []], [1, [1]] if sent else [1, []], [1, 2]])
+                for emax in (2, 3):
+                    for sent_ids in ([], [1], [1, 2], [3], [1, 2, 3]):
+                        for rep in ([], [1]):
+                            em = [2, [[1, sent_ids]]] if sent_ids else [2, []]
+                            add('cls_process_states_addpath', [9, x, emax, self.A_RX, [], [IPV4, 1, bc, ac, rep, od], em, [1, 2]])
+        for emax in (0, 255, 256, 65536):
+            add('cls_process_send_max_values', [9, x, emax, self.A_RX, [], [IPV4, 1, 1, 1, [], labelled], [2, [[1, [2]]]], [1, 2]])
+        # ---- the as-prepend action next to the 255-entry limit, and its left-most form
+        for headn in (None, 0, 1, 253, 254, 255):
+            for rep_ in (0, 1, 2, 3):
+                for d in (EBGP, CONFED, IBGP):
+                    for lm in (0, 1):
+                        ty = 3 if d == CONFED else 2
+                        attrs = [[ORIGIN, 0x40, 0, 0]] + ([self.a_path_attr([(ty, big(headn)), (1, [64600])])] if headn is not None else [])
+                        p = [1, self.a_src(EBGP), [[0, [10, 0, 0, 9]]], attrs]
+                        add('cls_policy_prepend_limits',
+                            [12] + self.a_one(self.a_ctx(d, 65100 if d != IBGP else 0), 1, self.cid_for(d), p) + [[[], [], 1, 2, [[65009, rep_, lm]]]])
+        # ---- RTC filter: route targets first / last / misaligned / in a short tail / in a second attribute
+        rt1, rt2, rt3 = self.RTS[0], self.RTS[1], self.RTS[2]
+        ext_variants = [None, [], rt1, rt2 + rt1, rt2 + rt3 + rt1, rt2[:4] + rt1 + rt2[4:], rt2 + rt1[:7], rt1[:7], rt2 * 31 + rt1]
+        for ev in ext_variants:
+            for rtc in ([0, []], [0, [rt1]], [0, [rt3, rt1]], [1, []]):
+                attrs = [[ORIGIN, 0x40, 0, 0], self.a_path_attr([(2, [65002])])] + ([[EXT_COMMUNITY, 0xC0, 1, ev]] if ev is not None else [])
+                p = [1, self.a_src(EBGP), [[0, [10, 0, 0, 9]]], attrs]
+                for em in ([0], [1, [1]]):
+                    add('cls_rtc_filter', [14] + self.a_one(x, 1, [], p, em=em) + [rtc])
+        attrs = [[ORIGIN, 0x40, 0, 0], [EXT_COMMUNITY, 0xC0, 1, rt2], self.a_path_attr([(2, [65002])]), [EXT_COMMUNITY, 0xC0, 1, rt1]]
+        add('cls_rtc_filter', [14] + self.a_one(x, 2, [], [1, self.a_src(EBGP), [[0, [10, 0, 0, 9]]], attrs]) + [[0, [rt1]]])
+        return out
+
     def fingerprint_changed(self):
         from vp.util import REPO
         fp = os.path.join(os.path.dirname(os.path.abspath(__file__)), 'c09_fingerprint.json')
@@ -696,6 +976,11 @@ class Prop:
             # the anchored code differs from the text the model was written against: go deeper
             scale = 4
             self.rule += ' [source fingerprint changed: quick run at 4x size]'
+        # --- the audit classes (deterministic, every run)
+        self._cls = {}
+        for cls, case in self.gen_audit():
+            self._cls[id(case)] = cls
+            cases.append(case)
         # --- AS_PATH edits
         for _ in range(250 * scale):
             mal = rng.random() < 0.25
@@ -1329,6 +1614,9 @@ class Prop:
         names = ['prepend', 'strip_confed', 'is_as_loop', 'export_attrs', 'pre_policy_defaults', 'rr_reflect',
                  'llgr_stale', 'inject_local_pref', 'suppress_predicates', 'process_nlri_change', 'rx_update', 'llgr_scenario', 'process_nlri_change_policy', 'history', 'process_nlri_change_rtc', 'restale_llgr_stream']
         tags = ['op_' + names[c[0]]]
+        cls = getattr(self, '_cls', {}).get(id(c))
+        if cls:
+            tags.append(cls)
         if obs == [-1]:
             tags.append('panic')
         if c[0] in (3, 4, 9, 10, 11, 12, 13, 14):
